@@ -711,16 +711,29 @@ func runC08Closed(c *kit.Ctx, k *keyer) {
 	z := &c08Closed{c: c, peerT: c.Named("internal/peer", "Peer"), fClosed: c.Field("internal/peer", "Peer", "Closed"),
 		mayClose: map[*ssa.Function]bool{}, reqMemo: map[*ssa.Function]map[int]bool{}, reqBusy: map[*ssa.Function]bool{},
 		tableFns: map[*types.Func]bool{}, torrentT: c.Named("torrent", "torrent")}
-	// closePeer is the only place that marks a peer closed
+	// the closers: every function that marks a peer closed (today closePeer /
+	// removePeer). Slots are taken from the program: a new closer is summarised
+	// like the existing ones instead of being reported.
+	closers := map[*ssa.Function]bool{}
 	for _, st := range fieldStores(c, z.fClosed) {
-		if st.Fn != closePeer {
-			c.Bad("R08.4", k.key(st.Fn, "store Peer.Closed"), posOf(st.Store), "Peer.Closed written outside closePeer: the closed state is no longer summarised by calls to closePeer")
+		if kit.Canon(st.Val).IsConstBool(true) {
+			closers[st.Fn] = true
+		} else if !inPkg(st.Fn, c, "internal/peer") {
+			c.Bad("R08.4", k.key(st.Fn, "store Peer.Closed"), posOf(st.Store), "Peer.Closed re-opened (stored %s): the closed state is no longer monotone", kit.Canon(st.Val))
 		}
 	}
-	// may-close: everything that reaches closePeer on the same goroutine
+	if !closers[closePeer] {
+		// closePeer must still (transitively) close
+		closers[closePeer] = true
+	}
+	c.Floor("R08.4", "functions that mark a peer closed", len(closers), 1)
+	// may-close: everything that reaches a closer on the same goroutine
 	{
-		work := []*ssa.Function{closePeer}
-		z.mayClose[closePeer] = true
+		var work []*ssa.Function
+		for f := range closers {
+			work = append(work, f)
+			z.mayClose[f] = true
+		}
 		for len(work) > 0 {
 			f := work[len(work)-1]
 			work = work[:len(work)-1]
